@@ -24,7 +24,9 @@ RULE = ('(1) all names of length <= 3 over {a " \' \\ TAB LF n [ ] space e-acute
         'non-trivial iff the name contains a character that needs escaping or is not an identifier; distinct = distinct (names, position, spelling, front-end)')
 
 NAME_ALPHA = ['a', '"', "'", '\\', '\t', '\n', 'n', '[', ']', ' ', 'é']
-NAME_POOL = ['id', 'na me', 'x"y', "x'y", 'back\\slash', 'a[1]', 'tab\there', 'new\nline', 'naïve', '中', 'a1', 'NR', 'x.y', 'ends\\', "q'\"q", '%', 'co,ma', 'A', 'select', 'b_2', '1st', 'wh ere', '#c', ';', 'a-b', '{x}', '$']
+NAME_POOL = ['id', 'na me', 'x"y', "x'y", 'back\\slash', 'a[1]', 'tab\there', 'new\nline', 'naïve', '中', 'a1', 'NR', 'x.y', 'ends\\', "q'\"q", '%', 'co,ma', 'A', 'select', 'b_2', '1st', 'wh ere', '#c', ';', 'a-b', '{x}', '$',
+             # characters that str.splitlines() / a JavaScript line terminator test treat as line breaks although they are legal inside a string literal
+             'v\x0bt', 'f\x0cf', 'fs\x1c', 'gs\x1dx', 'rs\x1ex', 'nel\x85x', '\x85', 'ls\u2028x', 'ps\u2029x']
 AB_TOKEN = re.compile(r'(?:^|[^_a-zA-Z0-9])[ab]\.[_a-zA-Z]')
 
 IMPL = r'''
